@@ -1,5 +1,116 @@
+import Agd.Model.Cache
 import Agd.Driver.Util
-/-! Line-protocol driver for the C04 model (stub: not built yet). -/
+/-!
+Line-protocol driver for the C04 model.
+
+```
+cfg <s|e|o> <minTTL ns> <override>            reset; s = simple cache, e = ECS cache, o = simple cache before the fix
+q <now> <REQ> <dep> <MSG>                     one request at time `now`; MSG = what the next handler answers
+evict <REQ>                                   capacity eviction of the entries the request could hit
+low <MSG>                                     findLowestTTL
+cacheable <qtype> <MSG>                       isCacheable
+ttl <s|e|o> <lowest> <age ns>                 TTL of a served item
+rmhop <qtype> <do> <MSG>                      rmHopToHopData
+keyeq <s|n|d> <REQ> <REQ>                     do two requests map to the same cache key
+REQ = name qtype qclass do ad rd cd fam6 declined subnet
+MSG = rcode tc aa ad ra rd cd nq nAnswer nNs nExtra (typ ttl soaMin data)*
+```
+-/
 namespace Agd.Driver.C04
-def main : IO Unit := Agd.Driver.loop (fun (s : Unit) _ => (s, "bad-op")) ()
+open Agd.Cache Agd.Driver
+
+structure S where
+  kind : String := "s"
+  cfg : Cfg := { minTTL := 0, override := false }
+  store : Store := Store.empty
+
+def parseRRs : Nat → List String → List RR × List String
+  | 0, ts => ([], ts)
+  | n + 1, a :: b :: c :: d :: ts =>
+    let p := parseRRs n ts
+    ({ typ := nat! a, ttl := nat! b, soaMin := nat! c, data := nat! d } :: p.1, p.2)
+  | _ + 1, _ => ([], [])
+
+def parseMsg : List String → Option Msg
+  | rc :: tc :: aa :: ad :: ra :: rd :: cd :: nq :: na :: nn :: ne :: ts =>
+    let a := parseRRs (nat! na) ts
+    let n := parseRRs (nat! nn) a.2
+    let e := parseRRs (nat! ne) n.2
+    some { rcode := nat! rc, tc := bool! tc, aa := bool! aa, ad := bool! ad, ra := bool! ra,
+           rd := bool! rd, cd := bool! cd, nq := nat! nq, answer := a.1, ns := n.1, extra := e.1 }
+  | _ => none
+
+def parseReq : List String → Option (Req × List String)
+  | name :: qt :: qc :: d :: ad :: rd :: cd :: f6 :: decl :: sub :: ts =>
+    some ({ name := name, qtype := nat! qt, qclass := nat! qc, do_ := bool! d, ad := bool! ad,
+            rd := bool! rd, cd := bool! cd, fam6 := bool! f6, declined := bool! decl,
+            subnet := nat! sub }, ts)
+  | _ => none
+
+def showRR (r : RR) : String := s!"{r.typ}:{r.ttl}:{r.soaMin}:{r.data}"
+
+def showRRs (rs : List RR) : String :=
+  ",".intercalate ((rs.filter (fun r => r.typ ≠ typOPT)).map showRR)
+
+def showMsg (m : Msg) : String :=
+  s!"{m.rcode} {showB m.tc}{showB m.aa}{showB m.ad}{showB m.ra}{showB m.rd}{showB m.cd} " ++
+  s!"[{showRRs m.answer}] [{showRRs m.ns}] [{showRRs m.extra}]"
+
+def showOut (o : Out) : String := (if o.hit then "H " else "M ") ++ showMsg o.resp
+
+def ttlFn : String → Nat → Nat → Nat
+  | "e" => ecsTTL
+  | "o" => simpleTTLOrig
+  | _ => simpleTTL
+
+def step (s : S) : List String → S × String
+  | ["cfg", kind, minTTL, ov] =>
+    ({ kind := kind, cfg := { minTTL := nat! minTTL, override := bool! ov }, store := Store.empty }, "ok")
+  | "q" :: now :: rest =>
+    match parseReq rest with
+    | some (r, dep :: ms) =>
+      match parseMsg ms with
+      | some a =>
+        let o := if s.kind == "e" then Ecs.step s.cfg s.store (nat! now) r a (bool! dep)
+                 else Simple.stepWith (ttlFn s.kind) s.cfg s.store (nat! now) r a
+        ({ s with store := o.store }, showOut o)
+      | none => (s, "bad-op")
+    | _ => (s, "bad-op")
+  | "evict" :: rest =>
+    match parseReq rest with
+    | some (r, _) =>
+      let st := if s.kind == "e" then (s.store.del (Ecs.keyNo r)).del (Ecs.keyDep r)
+                else s.store.del (Simple.keyOfReq r)
+      ({ s with store := st }, "ok")
+    | none => (s, "bad-op")
+  | "low" :: ms =>
+    match parseMsg ms with
+    | some m => (s, toString (findLowestTTL m))
+    | none => (s, "bad-op")
+  | "cacheable" :: qt :: ms =>
+    match parseMsg ms with
+    | some m => (s, showB (isCacheable (nat! qt) m))
+    | none => (s, "bad-op")
+  | ["ttl", k, low, age] => (s, toString (ttlFn k (nat! low) (nat! age)))
+  | "rmhop" :: qt :: d :: ms =>
+    match parseMsg ms with
+    | some m =>
+      let f := Ecs.rmHop m (nat! qt) (bool! d)
+      (s, s!"{f.answer.length} {f.ns.length} {f.extra.length} " ++ showMsg f)
+    | none => (s, "bad-op")
+  | "keyeq" :: k :: rest =>
+    match parseReq rest with
+    | some (r1, rest2) =>
+      match parseReq rest2 with
+      | some (r2, _) =>
+        let b := if k == "n" then decide (Ecs.keyNo r1 = Ecs.keyNo r2)
+                 else if k == "d" then decide (Ecs.keyDep r1 = Ecs.keyDep r2)
+                 else decide (Simple.keyOfReq r1 = Simple.keyOfReq r2)
+        (s, showB b)
+      | none => (s, "bad-op")
+    | none => (s, "bad-op")
+  | _ => (s, "bad-op")
+
+def main : IO Unit := loop step {}
+
 end Agd.Driver.C04
